@@ -6,6 +6,23 @@
 (* Trace.tla to judge events recorded from the implementation.               *)
 EXTENDS Approx
 
+(* ---- observed values ---------------------------------------------------------------------- *)
+(* The observed result curve d may carry numbers far outside TLC's 32 bits (a wrong result is   *)
+(* typically a best fit with huge denominators).  The harness therefore also records the VALUES  *)
+(* d(u) the implementation returns on a sample set (C01 binds curve(u) to Eval), a value that    *)
+(* does not fit in 32 bits is recorded as NaR = <<0,0>> and can never equal an expected value.    *)
+(* dv is a sequence of <<u, d(u)>>.  SamplesCover: the sample set contains every point the        *)
+(* complete function-equality test needs (knots + deg+1 interior points per span).               *)
+NaR == <<0, 0>>
+ObsPts(dv) == {dv[i][1] : i \in DOMAIN dv}
+Obs(dv, u) == (CHOOSE i \in DOMAIN dv : dv[i][1] = u)
+ObsVal(dv, u) == dv[Obs(dv, u)][2]
+SamplesCover(dv, ks, deg) == SamplePts(ks, deg) \subseteq ObsPts(dv)
+(* observed d equals curve c on the whole sample set *)
+ObservedEquals(c, dv, ks, deg) ==
+  /\ SamplesCover(dv, ks, deg)
+  /\ \A u \in SamplePts(ks, deg) : ObsVal(dv, u) = Eval(c, u)
+
 Fails(pairs) == {p[1] : p \in {q \in pairs : ~q[2]}}     \* pairs: set of <<name, holds>>
 
 Tol(t) == t                                   \* <<"default">> | <<"none">> | <<"q", n, d>>
@@ -21,7 +38,7 @@ SmallCurve(c, bound) == SmallSeq(c.U, bound) /\ SmallSeq(c.P, bound) /\ SmallSeq
 
 (* ---- generic: coarsening a curve c to the target vector V ----------------*)
 (* cls: observed outcome class, d: observed curve afterwards                 *)
-CoarsenClauses(c, V, tol, cls, d) ==
+CoarsenClauses(c, V, tol, cls, d, dv) ==
   LET exact == Representable(c, V) IN
   IF cls # "ok" THEN
      Fails({<<"unchanged_on_failure", d = c>>,
@@ -31,7 +48,8 @@ CoarsenClauses(c, V, tol, cls, d) ==
   ELSE
      Fails({<<"kv_is_target", d.U = V>>,
             <<"result_consistent", ConsistentCurve(d)>>,
-            <<"exact_case_same_function", (exact /\ d.U = V /\ ConsistentCurve(d)) => SameFunction(d, c)>>,
+            <<"exact_case_same_function", (exact /\ d.U = V /\ ConsistentCurve(d)) =>
+                  ObservedEquals(c, dv, CommonBreaks(c.U, V), Deg(c.U) + Deg(V))>>,
             <<"deviation_within_tolerance",
                 (~exact /\ tol[1] # "none" /\ c.W = <<>> /\ d.W = <<>> /\ d.U = V /\ ConsistentCurve(d)
                    /\ SmallCurve(d, 300))
@@ -40,31 +58,32 @@ CoarsenClauses(c, V, tol, cls, d) ==
                 ~(~exact /\ tol[1] # "none" /\ cls = "ok" /\ ~(c.W = <<>> /\ d.W = <<>> /\ SmallCurve(d, 300)))>>,
             <<"keeps_values_at_remaining_knots",
                 (tol[1] = "none" /\ Deg(V) >= 1 /\ d.U = V /\ ConsistentCurve(d))
-                   => \A x \in KnotSet(V) : Eval(d, x) = Eval(c, x)>>})
+                   => \A x \in KnotSet(V) : x \in ObsPts(dv) /\ ObsVal(dv, x) = Eval(c, x)>>})
 
 RemoveRequestValid(c, nodes) ==
   LET r == RemoveKV(c.U, nodes) IN r.ok /\ Deg(r.kv) = Deg(c.U)
 
-KnotRemoveClauses(c, nodes, tol, cls, d) ==
+KnotRemoveClauses(c, nodes, tol, cls, d, dv) ==
   IF ~RemoveRequestValid(c, nodes)
   THEN Fails({<<"invalid_request_refused", cls # "ok">>, <<"unchanged_on_failure", d = c>>})
-  ELSE CoarsenClauses(c, RemoveKV(c.U, nodes).kv, tol, cls, d)
+  ELSE CoarsenClauses(c, RemoveKV(c.U, nodes).kv, tol, cls, d, dv)
 
-DegreeDecreaseClauses(c, t, tol, cls, d) ==
+DegreeDecreaseClauses(c, t, tol, cls, d, dv) ==
   LET r == SetDegreeKV(c.U, Deg(c.U) - t) IN
   IF t < 1 \/ ~r.ok
   THEN Fails({<<"invalid_request_refused", cls # "ok">>, <<"unchanged_on_failure", d = c>>})
-  ELSE CoarsenClauses(c, r.kv, tol, cls, d)
+  ELSE CoarsenClauses(c, r.kv, tol, cls, d, dv)
 
 (* curve.knotvector = V  (arbitrary target on the same interval) *)
-SetKnotvectorClauses(c, V, cls, d) ==
+SetKnotvectorClauses(c, V, cls, d, dv) ==
   IF Limits(V) # Limits(c.U)
   THEN Fails({<<"invalid_request_refused", cls # "ok">>, <<"unchanged_on_failure", d = c>>})
   ELSE IF Refines(V, c.U)
   THEN Fails({<<"refinement_succeeds", cls = "ok">>,
               <<"kv_is_target", cls = "ok" => d.U = V>>,
-              <<"same_function", (cls = "ok" /\ d.U = V /\ ConsistentCurve(d)) => SameFunction(d, c)>>})
-  ELSE IF Refines(c.U, V) THEN CoarsenClauses(c, V, <<"default">>, cls, d)
+              <<"same_function", (cls = "ok" /\ d.U = V /\ ConsistentCurve(d)) =>
+                    ObservedEquals(c, dv, CommonBreaks(c.U, V), Deg(c.U) + Deg(V))>>})
+  ELSE IF Refines(c.U, V) THEN CoarsenClauses(c, V, <<"default">>, cls, d, dv)
   ELSE Fails({<<"unchanged_on_failure", cls # "ok" => d = c>>,
               <<"kv_is_target", cls = "ok" => d.U = V>>})
 
@@ -104,14 +123,21 @@ DropAt(c, x) ==
   IF r.ok /\ Deg(r.kv) = Deg(c.U) /\ Representable(c, r.kv) THEN DropAt(Coarsen(c, r.kv), x) ELSE c
 JoinResult(A, B) == DropAt(FullJoin(A, B), Umax(A.U))
 
-JoinClauses(A, B, cls, d) ==
+RestrictedEquals(c, dv, lo, hi, ks, deg) ==      \* observed values equal c on [lo, hi) sample points
+  \A u \in {x \in SamplePts(ks, deg) : Le(lo, x) /\ Lt(x, hi)} : u \in ObsPts(dv) /\ ObsVal(dv, u) = Eval(c, u)
+
+JoinClauses(A, B, cls, d, dv) ==
   IF Umax(A.U) # Umin(B.U)
   THEN Fails({<<"non_adjacent_is_ValueError", cls = "ValueError">>})
   ELSE IF cls # "ok" THEN {"adjacent_join_succeeds"}
   ELSE IF ~ConsistentCurve(d) THEN {"result_consistent"}
-  ELSE Fails({<<"interval_is_union", Limits(d.U) = <<Umin(A.U), Umax(B.U)>> >>,
-              <<"equals_A_on_left", Limits(d.U) = <<Umin(A.U), Umax(B.U)>> => RestrictsTo(d, A)>>,
-              <<"equals_B_on_right", Limits(d.U) = <<Umin(A.U), Umax(B.U)>> => RestrictsTo(d, B)>>,
+  ELSE LET ks  == SeqOfSet(KnotSet(A.U) \cup KnotSet(B.U) \cup KnotSet(d.U))
+           deg == Deg(A.U) + Deg(B.U) + Deg(d.U)
+           j   == Umax(A.U) IN
+       Fails({<<"interval_is_union", Limits(d.U) = <<Umin(A.U), Umax(B.U)>> >>,
+              <<"equals_A_on_left", RestrictedEquals(A, dv, Umin(A.U), j, ks, deg)>>,
+              <<"equals_B_on_right", RestrictedEquals(B, dv, j, Umax(B.U), ks, deg)
+                                     /\ Umax(B.U) \in ObsPts(dv) /\ ObsVal(dv, Umax(B.U)) = Eval(B, Umax(B.U))>>,
               <<"junction_multiplicity_minimal",
                   (A.W = <<>> /\ B.W = <<>>) => d.U = JoinResult(A, B).U>>})
 
@@ -123,20 +149,17 @@ ArithValue(op, x, y) ==
   CASE op = "add" -> Add(x, y) [] op = "sub" -> Sub(x, y) [] op = "mul" -> Mul(x, y)
     [] op = "div" -> Div(x, y)
 
-ArithPts(A, B, Rr) ==
-  LET ks == SeqOfSet(KnotSet(A.U) \cup KnotSet(B.U) \cup KnotSet(Rr.U))
-      d  == Deg(A.U) + Deg(B.U) + Deg(Rr.U)
-  IN [ks |-> ks, S |-> SamplePts(ks, d)]
-
-ArithClauses(op, A, B, cls, Rr) ==
+ArithClauses(op, A, B, cls, Rr, dv) ==
   IF Limits(A.U) # Limits(B.U)
   THEN Fails({<<"different_intervals_is_ValueError", cls = "ValueError">>})
   ELSE IF cls # "ok" THEN {"operation_succeeds"}
   ELSE IF ~ConsistentCurve(Rr) \/ Limits(Rr.U) # Limits(A.U) THEN {"result_consistent"}
-  ELSE LET g == ArithPts(A, B, Rr) IN
-       Fails({<<"pointwise", \A u \in g.S : Eval(Rr, u) = ArithValue(op, Eval(A, u), Eval(B, u))>>,
-              <<"pointwise_left_limits", \A i \in 2..Len(g.ks) :
-                   LeftLimit(Rr, g.ks[i]) = ArithValue(op, LeftLimit(A, g.ks[i]), LeftLimit(B, g.ks[i]))>>})
+  ELSE LET ks == SeqOfSet(KnotSet(A.U) \cup KnotSet(B.U) \cup KnotSet(Rr.U))
+           d  == Deg(A.U) + Deg(B.U) + Deg(Rr.U)
+           S  == SamplePts(ks, d) IN
+       Fails({<<"samples_cover", SamplesCover(dv, ks, d)>>,
+              <<"pointwise", SamplesCover(dv, ks, d) =>
+                    \A u \in S : ObsVal(dv, u) = ArithValue(op, Eval(A, u), Eval(B, u))>>})
 
 (* scalar forms: result(u) = f(A(u)) with f given by (op, s) *)
 ScalarValue(op, s, x) ==
@@ -144,14 +167,14 @@ ScalarValue(op, s, x) ==
     [] op = "A-s" -> Sub(x, s) [] op = "s*A" -> Mul(s, x) [] op = "A*s" -> Mul(x, s)
     [] op = "A/s" -> Div(x, s) [] op = "s/A" -> Div(s, x) [] op = "neg" -> Neg(x)
 
-ScalarClauses(op, s, A, cls, Rr) ==
+ScalarClauses(op, s, A, cls, Rr, dv) ==
   IF cls # "ok" THEN {"operation_succeeds"}
   ELSE IF ~ConsistentCurve(Rr) \/ Limits(Rr.U) # Limits(A.U) THEN {"result_consistent"}
   ELSE LET ks == CommonBreaks(A.U, Rr.U)
-           S  == SamplePts(ks, 2 * Deg(A.U) + Deg(Rr.U)) IN
-       Fails({<<"pointwise", \A u \in S : Eval(Rr, u) = ScalarValue(op, s, Eval(A, u))>>,
-              <<"pointwise_left_limits", \A i \in 2..Len(ks) :
-                   LeftLimit(Rr, ks[i]) = ScalarValue(op, s, LeftLimit(A, ks[i]))>>})
+           d  == 2 * Deg(A.U) + Deg(Rr.U)
+           S  == SamplePts(ks, d) IN
+       Fails({<<"samples_cover", SamplesCover(dv, ks, d)>>,
+              <<"pointwise", SamplesCover(dv, ks, d) => \A u \in S : ObsVal(dv, u) = ScalarValue(op, s, Eval(A, u))>>})
 
 (* ---- equality ----------------------------------------------------------------*)
 EqValue(A, B) == Limits(A.U) = Limits(B.U) /\ SameFunction(A, B)
